@@ -63,6 +63,13 @@ def tagContentOk (t : Nat) : Cbor → Bool
 def nodupKeys (kvs : List (Cbor × Cbor)) : Bool :=
   decide ((kvs.map (fun kv => encode kv.1)).Nodup)
 
+/-- does the next item start with a tag head? (fxamacker scans a run of consecutive tags without recursion: the
+    first tag of a run costs no nesting level, each further one does) -/
+def isTagHead (bs : Bytes) : Bool :=
+  match decHead bs with
+  | some (mt, _, _, _) => mt == 6
+  | none => false
+
 mutual
   /-- `decode fuel depth bytes`: one data item and the remaining bytes -/
   def decode : Nat → Nat → Bytes → Option (Cbor × Bytes)
@@ -88,8 +95,8 @@ mutual
               if nodupKeys kvs && kvs.all (fun kv => hashableKey kv.1) then some (.map kvs, r') else none
             | none => none)
         else if mt = 6 then
-          (if d = 0 then none else
-            match decode f (d - 1) r with
+          (if isTagHead r ∧ d = 0 then none else
+            match decode f (if isTagHead r then d - 1 else d) r with
             | some (v, r') => if tagContentOk n v then some (.tag n v, r') else none
             | none => none)
         else
